@@ -12,7 +12,11 @@ the provisional super block).  Files may contain sparse and empty blocks, may ca
 flag-less blocks (fragment blocks) may be written between files.
 -/
 import Sqfs.Proofs.BlockWriter
+import Sqfs.Proofs.FragDedup
+import Sqfs.Model.ToyCodec
 namespace Sqfs.C08
+
+section BlockWriterPart
 open Sqfs.BlockWriter
 
 /-- The block writer never fails and never indexes outside its history (the `Err.internal` exits of the
@@ -101,5 +105,92 @@ example :
                             ⟨1, exFirst ||| exLast ||| Sqfs.Consts.blkDontDeduplicate, [1]⟩, ⟨1, exLast, [2]⟩ ]
     wf false cs = false ∧
     (run (init []) cs).toOption.map (fun r => (r.2, r.1.file)) = some ([0, 0, 2, 0], [1, 2]) := by decide
+
+
+end BlockWriterPart
+
+section FragmentPart
+open Sqfs.FragDedup
+
+/-! ## Fragments
+
+`h` is the checksum function, `codec` any codec with the round-trip contract, `maxBlock` the block size; `evs`
+ranges over all scripts: fragments (any bytes, any user flags, except an all-zero fragment marked `nosparse` —
+D24/C17) interleaved arbitrarily with "fragment block `k` has reached the disk" and `finish`.  Scripts the pool
+cannot produce (writing a block that is not in flight) make the model answer `badEvent`; nothing else can go
+wrong (`frag_no_error`).  `byteCompare = true` is how `lib/common/src/writer/init.c` configures the
+processor (`file` and `uncmp` given). -/
+
+/-- The fragment path never fails: no `SQFS_ERROR_CORRUPTED` from `chunk_info_equals`, no failed re-read or
+uncompress of a written fragment block, no lookup of an unknown block — for every checksum function, every
+codec with the round-trip contract, and every timing of the block writes. -/
+theorem frag_no_error (codec : Codec) (hrt : codec.RoundTrip) (h : Bytes → UInt32) (maxBlock : Nat)
+    (evs : List Ev) (hok : evsOk evs) (e : Err)
+    (hrun : run codec h true maxBlock {} evs = .error e) : e = .badEvent := by
+  rcases run_spec codec hrt h maxBlock evs {} [] (Inv_init codec) (fun p hp => by cases hp) hok with
+    ⟨rs, st', hr, _⟩ | herr
+  · rw [hr] at hrun; cases hrun
+  · rw [herr] at hrun; cases hrun; rfl
+
+/-- **Fragment sharing is sound.** Every `(index, offset)` handed to an inode addresses — in what a reader
+obtains for fragment block `index` at the end — exactly that fragment's bytes, whichever of the three places
+(`fblk_in_flight` copy, open block, block re-read from disk and uncompressed, through the cache) the
+comparisons read from and however the checksums collide. -/
+theorem frag_sound (codec : Codec) (hrt : codec.RoundTrip) (h : Bytes → UInt32) (maxBlock : Nat)
+    (evs : List Ev) (hok : evsOk evs) (rs : List (Option Res)) (st : State)
+    (hrun : run codec h true maxBlock {} evs = .ok (rs, st)) : fragSoundOk codec st evs rs = true := by
+  rcases run_spec codec hrt h maxBlock evs {} [] (Inv_init codec) (fun p hp => by cases hp) hok with
+    ⟨rs', st', hr, hinv, _, _, hres⟩ | herr
+  · rw [hr] at hrun; cases hrun
+    exact fragSound_of_ResAll codec st hinv evs rs hres
+  · rw [herr] at hrun; cases hrun
+
+/-- **Equal fragments share.** After any history, a fragment whose bytes were stored before (under the same
+checksum, i.e. with the same `DONT_HASH` setting) and that does not carry `DONT_DEDUPLICATE` is answered with a
+location and stores nothing: the fragment blocks are unchanged. -/
+theorem frag_share (codec : Codec) (hrt : codec.RoundTrip) (h : Bytes → UInt32) (maxBlock : Nat)
+    (evs : List Ev) (hok : evsOk evs) (rs : List (Option Res)) (st : State)
+    (hrun : run codec h true maxBlock {} evs = .ok (rs, st))
+    (d : Bytes) (flags : Nat) (hd : fragOk d flags) (hns : isSparse d flags = false)
+    (hdd : hasFlag flags Sqfs.Consts.blkDontDeduplicate = false)
+    (hseen : (d, fragHash h d flags) ∈ seenOf h evs) :
+    ∃ i o st', processFragment codec h true maxBlock st d flags = .ok (.loc i o, st') ∧
+      st'.blocks = st.blocks := by
+  rcases run_spec codec hrt h maxBlock evs {} [] (Inv_init codec) (fun p hp => by cases hp) hok with
+    ⟨rs', st', hr, hinv, _, hsi, _⟩ | herr
+  · rw [hr] at hrun; cases hrun
+    obtain ⟨r, st2, hpf, _, _, _, hsp, _, hsame⟩ :=
+      processFragment_spec codec h maxBlock st d flags (seenOf h evs ++ []) hinv hd hsi
+    have hb := hsame hns hdd (by simpa using hseen)
+    cases r with
+    | sparse => have := hsp.1 rfl; rw [hns] at this; cases this
+    | loc i o => exact ⟨i, o, st2, hpf, hb⟩
+  · rw [herr] at hrun; cases hrun
+
+/-! ### non-vacuity: two different 3-byte fragments under a *constant* checksum, block size 8, a codec that
+really compresses (the toy RLE codec restricted to inputs it round-trips is replaced here by the identity-like
+`ident`, whose contract is immediate) -/
+
+example : Sqfs.ToyCodec.ident.RoundTrip := by
+  intro x y hxy; simp [Sqfs.ToyCodec.ident] at hxy
+
+def exEvs : List Ev :=
+  [ .frag [1, 2, 3] 0, .frag [1, 2, 4] 0, .frag [1, 2, 3] 0, .frag [9, 9, 9] 0,   -- 4th overflows block 0
+    .frag [1, 2, 4] 0,                                                           -- compared with the in-flight copy
+    .written 0,
+    .frag [1, 2, 3] 0,                                                           -- compared with the block on disk
+    .frag [0, 0, 0] 0, .finish, .written 1 ]
+
+example : evsOk exEvs := by
+  intro e he
+  simp [exEvs] at he
+  rcases he with rfl | rfl | rfl | rfl | rfl | rfl | rfl | rfl | rfl | rfl <;> simp [Ev.ok, fragOk, hasFlag]
+
+/-- constant checksum: everything collides, yet each fragment gets its own bytes -/
+example : ((run Sqfs.ToyCodec.ident (fun _ => 0) true 8 {} exEvs).toOption.map (·.1)) =
+    some [some (.loc 0 0), some (.loc 0 3), some (.loc 0 0), some (.loc 1 0), some (.loc 0 3), none,
+          some (.loc 0 0), some .sparse, none, none] := by decide
+
+end FragmentPart
 
 end Sqfs.C08
